@@ -11,8 +11,21 @@
 From PV Require Import Base.Prelude Model.Paths.
 
 (* ------------------------------------------------------------------ part 1: paths *)
+(* The two containment tests of p8.py, by the shape the generator recognised in the source
+   (gen/kernels_files.py: include_containment_kind, root_detection_kind):
+     0   p.startswith(root)                                          (string prefix)
+     1   p == root or p.startswith(os.path.join(root, ''))           (root itself or below it)
+     2   p.startswith(os.path.join(root, ''))                        (strictly below root)
+   os.path.join(root, '') is root with exactly one separator appended unless it ends in one. *)
+Definition contain_test (kind : Z) (root p : bytes) : bool :=
+  if kind =? 0 then starts_with root p
+  else if kind =? 1 then zlist_eqb p root || starts_with (join root []) p
+  else if kind =? 2 then starts_with (join root []) p
+  else false.
+
 Section Root.
 Variable cart_paths : list bytes.          (* PICO8_CART_PATHS *)
+Variable root_kind inc_kind : Z.           (* shapes of the two tests *)
 Variable cwd home : bytes.                 (* os.getcwd(), os.environ['HOME'] *)
 
 (* the for loop: the last matching candidate wins *)
@@ -21,7 +34,7 @@ Fixpoint root_scan (full : bytes) (cands : list bytes) (root : option bytes) : o
   | [] => root
   | c :: r =>
     let fc := full_path cwd home c in
-    root_scan full r (if starts_with fc full then Some fc else root)
+    root_scan full r (if contain_test root_kind fc full then Some fc else root)
   end.
 
 Definition get_root_include_path (filename : bytes) : bytes :=
@@ -40,33 +53,7 @@ Variable isfile : bytes -> bool.
 Definition resolve_include (filename inc : bytes) : result bytes :=
   let root := get_root_include_path filename in
   let p := include_full_path filename inc in
-  if negb (starts_with root p) then Err IncludeOutside
-  else if negb (isfile p) then Err IncludeNotFound
-  else Ok p.
-
-(* the candidate patch findings/patches/C12_include_prefix.diff: separator-aware containment *)
-Definition contained_fixed (root p : bytes) : bool :=
-  zlist_eqb p root || starts_with (if ends_with_slash root then root else root ++ [47]) p.
-
-Fixpoint root_scan_fixed (full : bytes) (cands : list bytes) (root : option bytes) : option bytes :=
-  match cands with
-  | [] => root
-  | c :: r =>
-    let fc := full_path cwd home c in
-    root_scan_fixed full r (if contained_fixed fc full then Some fc else root)
-  end.
-
-Definition get_root_include_path_fixed (filename : bytes) : bytes :=
-  let full := full_path cwd home filename in
-  match root_scan_fixed full cart_paths None with
-  | Some r => r
-  | None => dirname full
-  end.
-
-Definition resolve_include_fixed (filename inc : bytes) : result bytes :=
-  let root := get_root_include_path_fixed filename in
-  let p := include_full_path filename inc in
-  if negb (contained_fixed root p) then Err IncludeOutside
+  if negb (contain_test inc_kind root p) then Err IncludeOutside
   else if negb (isfile p) then Err IncludeNotFound
   else Ok p.
 End Root.
